@@ -26,6 +26,7 @@ type LoopSpec struct {
 	Invariants []Clause
 	Decreases  *Clause
 	Asserts    []Clause // checked at loop exit
+	Steps      []Clause // two-state clauses (may use athead(n, e)): checked at the end of every iteration and at every exit from inside the loop
 }
 
 type AtClause struct {
@@ -45,6 +46,7 @@ type Contract struct {
 	Modifies []string
 	HasModifies bool
 	Loops    map[int]*LoopSpec
+	LoopsByText map[string]*LoopSpec // keyed by a prefix of the loop header text; resolved to ordinals per function
 	Ats      map[string][]AtClause
 	Pure     bool
 	Trusted  string
@@ -251,6 +253,33 @@ func parseClause(c *Contract, body, file string, ln int) error {
 	case "ghost":
 		c.Ghosts = append(c.Ghosts, splitNames(rest)...)
 	case "loop":
+		var ls *LoopSpec
+		if strings.HasPrefix(rest, "\"") {
+			// loop "<header prefix>" <kind> <expr>
+			end := strings.Index(rest[1:], "\"")
+			if end < 0 {
+				return fmt.Errorf("unterminated loop header text")
+			}
+			hdr := rest[1 : 1+end]
+			after := rest[2+end:]
+			if strings.HasPrefix(after, "#") { // "text"#k: the k-th loop (in source order) whose header starts with text
+				j := 1
+				for j < len(after) && after[j] >= '0' && after[j] <= '9' {
+					j++
+				}
+				hdr += after[:j]
+				after = after[j:]
+			}
+			rest = "0 " + strings.TrimSpace(after)
+			if c.LoopsByText == nil {
+				c.LoopsByText = map[string]*LoopSpec{}
+			}
+			ls = c.LoopsByText[hdr]
+			if ls == nil {
+				ls = &LoopSpec{}
+				c.LoopsByText[hdr] = ls
+			}
+		}
 		f := strings.Fields(rest)
 		if len(f) < 3 {
 			return fmt.Errorf("bad loop clause")
@@ -264,10 +293,12 @@ func parseClause(c *Contract, body, file string, ln int) error {
 			tags = wtags
 		}
 		text := strings.TrimSpace(strings.SplitN(rest, f[1], 2)[1])
-		ls := c.Loops[n]
 		if ls == nil {
-			ls = &LoopSpec{}
-			c.Loops[n] = ls
+			ls = c.Loops[n]
+			if ls == nil {
+				ls = &LoopSpec{}
+				c.Loops[n] = ls
+			}
 		}
 		cl, err := mk(text)
 		if err != nil {
@@ -280,6 +311,8 @@ func parseClause(c *Contract, body, file string, ln int) error {
 			ls.Decreases = &cl
 		case "exit-assert":
 			ls.Asserts = append(ls.Asserts, cl)
+		case "step":
+			ls.Steps = append(ls.Steps, cl)
 		default:
 			return fmt.Errorf("bad loop clause kind %q", what)
 		}
